@@ -3,7 +3,7 @@ from ..paths import parse_term, explore, describe, bool_label, pretty_place, des
 from ..rules import calls_to, calls_where, order_ok, blocks_of
 from ..facts import callee_path, is_place, op_local
 
-TEXT = ("Parameter::update copies raw_value to previous_raw_value first, dominating every other store; the finish edge of update_tween (time >= duration) leaves Idle{value: *target} and Idle yields the target's raw value unmodified; Parameter::set starts from the current value with time 0 and clears stagnant; stagnant is only set on the finish edge for fixed targets; Parameter::update_tween and Tweener::update (two hand-maintained copies) agree on start-time handling, time accumulation and the finish comparison. Interpolation values and easing curves are not decided. Every Parameter field is updated per chunk and receives its command reader; clock start times are due exactly when Info::when_to_start says so. No exit of a per-chunk function skips a time-keeping update unless the owner was just stopped; modulators, clocks and listeners advance by dt times the frames of this chunk. Each parameter has one update site per function and all time-keeping of a pass advances by the same duration; interpolated_value interpolates from the previous value on every path; Parameter::new falls back to the default of its own setting; a Duration is interpolated through signed seconds; both copies of the tween-timing logic test the delay before they subtract. A field that keeps a value derived from a Parameter of the same object is recomputed after every update of that parameter on every path (all Parameter::update sites are instances); Parameter::update recomputes the raw value on every path on which the parameter is not stagnant. Every running sum of the time step is an f64; per-frame reads are given index / length of the slice being processed; per-chunk time-keeping advances by dt times the length of the slice (or the function's own dt). The stagnant flag has no writer other than the finish edge for fixed targets, set and the constructor; a tweening parameter's value is the interpolation from its start value towards its target (or held). resume(tween) hands on StartTime::Immediate (the tween's own start time is honoured once, by the fade); new sounds are picked up before the callback's command poll. Tweenable::interpolate of f32 / f64 / Vec3 is a + (b - a) x amount and of the unit newtypes the blend of the wrapped numbers as they are (endpoints are not clamped); the gain stages that ramp a volume across the chunk lie on every path of their mixing function. What the tween-advancing function carries from one update to the next (elapsed time, a started latch) lives in the Tweening state or is written by set on every path; clock speeds of different units blend in the target's unit.")
+TEXT = ("Parameter::update copies raw_value to previous_raw_value first, dominating every other store; the finish edge of update_tween (time >= duration) leaves Idle{value: *target} and Idle yields the target's raw value unmodified; Parameter::set starts from the current value with time 0 and clears stagnant; stagnant is only set on the finish edge for fixed targets; Parameter::update_tween and Tweener::update (two hand-maintained copies) agree on start-time handling, time accumulation and the finish comparison. Interpolation values and easing curves are not decided. Every Parameter field is updated per chunk and receives its command reader; clock start times are due exactly when Info::when_to_start says so. No exit of a per-chunk function skips a time-keeping update unless the owner was just stopped; modulators, clocks and listeners advance by dt times the frames of this chunk. Each parameter has one update site per function and all time-keeping of a pass advances by the same duration; interpolated_value interpolates from the previous value on every path; Parameter::new falls back to the default of its own setting; a Duration is interpolated through signed seconds; both copies of the tween-timing logic test the delay before they subtract. A field that keeps a value derived from a Parameter of the same object is recomputed after every update of that parameter on every path (all Parameter::update sites are instances); Parameter::update recomputes the raw value on every path on which the parameter is not stagnant. Every running sum of the time step is an f64; per-frame reads are given index / length of the slice being processed; per-chunk time-keeping advances by dt times the length of the slice (or the function's own dt). The stagnant flag has no writer other than the finish edge for fixed targets, set and the constructor; a tweening parameter's value is the interpolation from its start value towards its target (or held). resume(tween) hands on StartTime::Immediate (the tween's own start time is honoured once, by the fade); new sounds are picked up before the callback's command poll. Tweenable::interpolate of f32 / f64 / Vec3 is a + (b - a) x amount and of the unit newtypes the blend of the wrapped numbers as they are (endpoints are not clamped); the gain stages that ramp a volume across the chunk lie on every path of their mixing function. What the tween-advancing function carries from one update to the next (elapsed time, a started latch) lives in the Tweening state or is written by set on every path; clock speeds of different units blend in the target's unit. Every Parameter::new in a constructor is given the configured value as it is (47 sites) and a new parameter is stagnant exactly when that value is fixed; ClockTime::from_ticks_f64 clamps before it splits.")
 TECHNIQUE = 'MIR dominance / path-predicate / sibling-agreement rules'
 
 P = 'parameter::Parameter::<T>'
